@@ -603,6 +603,12 @@ namespace Pistache::Tcp
                 }
             }
         }
+        else
+        {
+            // disarmed: the continuation that closes the descriptor when the timer fires
+            // will never run
+            ::close(entry.fd);
+        }
     }
 
     bool Transport::isPeerFd(Fd fd) const
